@@ -71,6 +71,11 @@ ExplainedR(pre, e) ==
   \* while a consensus fault is active the miner may neither commit sectors nor declare recoveries
   ELSE IF e.ev \in {"CommitNI", "DeclareRecovered"} /\ pre.epoch <= MinerByName(pre, e.m).cfElapsed THEN
        ~e.ok /\ AbsReal(MinerByName(e.st, e.m)) = AbsReal(MinerByName(pre, e.m))
+  \* an extension that declares claims to maintain or drop is decided by the registry as well (Claims.tla, C10)
+  ELSE IF e.ev = "Extend" /\ \E i \in Idx(e.decls) : "claims" \in DOMAIN e.decls[i] /\ Len(e.decls[i].claims) > 0 THEN TRUE
+  \* ... and so is the plain extension of a sector that carries verified data (refused: its claims must be declared)
+  ELSE IF e.ev = "Extend" /\ LET M == MinerByName(pre, e.m) IN
+          \E i \in Idx(e.decls) : \E j \in Idx(M.sectors) : M.sectors[j].n \in SeqSet(e.decls[i].s) /\ M.sectors[j].vw > 0 THEN TRUE
   ELSE IF e.ev \in Modelled THEN
        LET r == ModelCall(MinerByName(pre, e.m), e, pre.epoch) IN
        r.ok = e.ok /\ LC!Abs(r.SM) = AbsReal(MinerByName(e.st, e.m))
